@@ -117,6 +117,27 @@ def variables_specs(budget):
                 yield (("a", t1), ("b", t2))
     yield (("a", ("unset",)),)
     yield ()
+    yield from wide_and_deep_specs()
+
+
+def wide_and_deep_specs():
+    """Beyond the node budget, along the two axes the base clients index or recurse on: the NUMBER of distinct uploads in one
+    request (file-part keys are decimal strings: 9 -> 10 -> 11 is where lexicographic and numeric order part) and the DEPTH of
+    list nesting around generated-style models (the sync/async x plain/OpenTelemetry copies recurse separately)."""
+    models = [("model", ()), ("model", (("someValue", ("str",)),)), ("model", (("file", ("up", 1)),)), ("model", (("file", ("none",)),)),
+              ("model", (("nested", ("model", (("someValue", ("enum",)),))),)), ("model", (("someValue", ("str",)), ("file", ("up", 2))))]
+    for m in models:
+        yield (("a", ("list", (("list", (m,)),))),)
+        yield (("a", ("list", (("list", (("list", (m,)),)),))),)
+        yield (("a", ("list", (("list", (m, ("model", (("someValue", ("int",)),)))), ("list", ())))),)
+        yield (("a", ("dict", (("k", ("list", (("list", (m,)),))),))),)
+        yield (("a", ("model", (("items", ("list", (("list", (m,)),))),))),)
+    for n in (3, 9, 10, 11, 12, 21):
+        ups = tuple(("up", i) for i in range(1, n + 1))
+        yield (("a", ("list", ups)),)
+        yield (("a", ("list", tuple(reversed(ups)))),)
+        yield tuple((f"v{i}", u) for i, u in enumerate(ups))
+        yield (("a", ("list", tuple(("model", (("file", u),)) for u in ups))), ("b", ("up", 1)))
 
 
 # ------------------------------------------------------------------ instantiate / reference wire
